@@ -256,9 +256,8 @@ pub fn run_section(
             other => failing.push((i, other)),
         }
     }
-    // report at most 3 decisive failures per class per section, shrunk
-    let mut n_spec = 0;
-    let mut n_model = 0;
+    // report at most 2 decisive failures per (class, theorem) per section, shrunk
+    let mut seen: BTreeMap<String, u32> = BTreeMap::new();
     for (i, v) in failing {
         let c = &cases[i];
         if c.info {
@@ -274,19 +273,15 @@ pub fn run_section(
             }
             continue;
         }
-        let is_spec = matches!(v, Verdict::SpecViolation(..));
-        if is_spec {
-            n_spec += 1;
-            if n_spec > 3 {
-                rep.count(&format!("{}/more-spec-violations", section), 1);
-                continue;
-            }
-        } else {
-            n_model += 1;
-            if n_model > 3 {
-                rep.count(&format!("{}/more-model-disagreements", section), 1);
-                continue;
-            }
+        let key = match &v {
+            Verdict::SpecViolation(_, t) => format!("spec:{}", t),
+            _ => "model".to_string(),
+        };
+        let n = seen.entry(key.clone()).or_insert(0);
+        *n += 1;
+        if *n > 2 {
+            rep.count(&format!("{}/more-failures:{}", section, key), 1);
+            continue;
         }
         let (sc, si, sm, sv) = shrink(model, c, &impl_out[i], &model_out[i], v, run_impl, judge);
         let (class, detail, thm) = match sv {
